@@ -143,7 +143,7 @@ fn stale() -> &'static str {
     S.get_or_init(|| "// stale line of an earlier, longer generation at this path ................................\n".repeat(170))
 }
 
-fn one_generation(input: &BgInput, src: &Path, outdir: &Path, seed: Option<u64>, builder_reuse: u8) -> Vec<Outputs> {
+fn one_generation(input: &BgInput, src: &Path, outdir: &Path, seed: Option<u64>, builder_reuse: u8, leftovers: bool) -> Vec<Outputs> {
     std::fs::create_dir_all(outdir).ok();
     let mut args: Vec<String> = vec!["bindgen".into()];
     args.extend(input.flags.iter().map(|f| bg::subst(outdir, f)));
@@ -166,8 +166,13 @@ fn one_generation(input: &BgInput, src: &Path, outdir: &Path, seed: Option<u64>,
         rec.log.lock().unwrap().clear();
         // side files start out as the (longer) leftovers of an earlier generation at the same
         // path: a generation must replace them, not write into them
+        // (references are taken in an empty directory)
         for f in ["deps.d", "extern.c", "extern.cpp"] {
-            let _ = std::fs::write(outdir.join(f), stale());
+            if leftovers {
+                let _ = std::fs::write(outdir.join(f), stale());
+            } else {
+                let _ = std::fs::remove_file(outdir.join(f));
+            }
         }
         bindgen::verif::set_thread_config(Some((false, seed)));
         let r = bg::generate_with(b.clone());
@@ -204,7 +209,7 @@ pub fn worker_c11(req: &Value, _io: &mut ServerIo) -> Value {
         Some("reference") => {
             let i = req["index"].as_u64().unwrap() as usize;
             let seed = req["seed"].as_u64();
-            let o = one_generation(&inputs[i], &src, &out.join("ref"), seed, 1);
+            let o = one_generation(&inputs[i], &src, &out.join("ref"), seed, 1, false);
             json!({"outputs": o})
         }
         Some("history") => {
@@ -216,13 +221,13 @@ pub fn worker_c11(req: &Value, _io: &mut ServerIo) -> Value {
                     Step::SetWorklistSeed(s) => seed = *s,
                     Step::Generate(i) => {
                         let i = *i % inputs.len();
-                        for o in one_generation(&inputs[i], &src, &out.join(format!("s{k}")), seed, 1) {
+                        for o in one_generation(&inputs[i], &src, &out.join(format!("s{k}")), seed, 1, true) {
                             results.push(json!({"step": k, "input": i, "outputs": o}));
                         }
                     }
                     Step::SameBuilderAgain(i, n) => {
                         let i = *i % inputs.len();
-                        for o in one_generation(&inputs[i], &src, &out.join(format!("s{k}")), seed, (*n).clamp(2, 4)) {
+                        for o in one_generation(&inputs[i], &src, &out.join(format!("s{k}")), seed, (*n).clamp(2, 4), true) {
                             results.push(json!({"step": k, "input": i, "outputs": o}));
                         }
                     }
@@ -234,7 +239,7 @@ pub fn worker_c11(req: &Value, _io: &mut ServerIo) -> Value {
                             let input = inputs[i].clone();
                             let src = src.clone();
                             let od = out.join(format!("s{k}_t{th}"));
-                            handles.push(std::thread::spawn(move || (i, one_generation(&input, &src, &od, seed, 1))));
+                            handles.push(std::thread::spawn(move || (i, one_generation(&input, &src, &od, seed, 1, true))));
                         }
                         for h in handles {
                             match h.join() {
